@@ -290,6 +290,8 @@ def profiles(tier, seed, light=False):
         P.append(dict(base, rotating=bool(i % 2), qmax=2, M=6, K=2, est=2, fpr=0.3, H=0, ntables=1, maxdepth=5 if tier == "quick" else 6, channels=["bytes"], strategy=st))
     if light and tier == "quick":
         P = [dict(p, ntables=min(p["ntables"], 2)) for p in P]
+    if light and tier == "thorough":
+        P = [dict(p, ntables=max(2, p["ntables"] // 3)) if p["ntables"] > 1 else p for p in P]
     for i, p in enumerate(P):
         assert GEOM[(p["M"], p["K"])] == (p["est"], p["fpr"]), p
         if p.get("strategy"):
